@@ -142,13 +142,18 @@ pub fn run(ctx: &Ctx) -> (&'static str, &'static str) {
         }
         Ok("constants")
     });
-    toy_chains::<T19_4>(ctx);
-    toy_chains::<T19_5>(ctx);
-    toy_chains::<T7_2>(ctx);
-    if !ctx.quick() {
-        toy_chains::<T31_5>(ctx);
-        toy_chains::<T19X2>(ctx);
+    #[cfg(feature = "toy")]
+    {
+        toy_chains::<T19_4>(ctx);
+        toy_chains::<T19_5>(ctx);
+        toy_chains::<T7_2>(ctx);
+        if !ctx.quick() {
+            toy_chains::<T31_5>(ctx);
+            toy_chains::<T19X2>(ctx);
+        }
     }
+    #[cfg(not(feature = "toy"))]
+    ctx.degraded("toy-curve addition chains");
     // 2. the concrete impls on the full curve groups
     let mut rng = ctx.rng("c17.points");
     let p1 = g1_points(&mut rng, ctx.tier.pick(2, 6), ctx.tier.pick(2, 4));
